@@ -626,13 +626,20 @@ func C03(c *core.Ctx) {
 				}
 				to, okT := cal.TypeArgs()[1].Underlying().(*types.Basic)
 				from, okF := cal.TypeArgs()[0].Underlying().(*types.Basic)
-				if !okT || !okF || to.Kind() != types.Uint8 || from.Kind() == types.Uint8 {
+				if !okT || !okF {
+					return
+				}
+				// the largest value of the narrower type (one octet: HopLimit; four octets: Nonce)
+				maxOf := map[types.BasicKind]int64{types.Uint8: 255, types.Uint16: 65535, types.Uint32: 4294967295}
+				widthOf := map[types.BasicKind]int{types.Uint8: 1, types.Uint16: 2, types.Uint32: 4, types.Uint64: 8, types.Uint: 8, types.Int: 8, types.Int64: 8, types.Int32: 4, types.Int16: 2, types.Int8: 1}
+				lim, narrowTo := maxOf[to.Kind()]
+				if !narrowTo || widthOf[from.Kind()] <= widthOf[to.Kind()] {
 					return
 				}
 				nNarrow++
 				c.Funcs[core.FuncName(fn)] = true
 				arg := cl.Call.Args[0]
-				small := &core.Atom{Name: "value ≤ 255", Match: func(cond ssa.Value) (int, int) {
+				small := &core.Atom{Name: fmt.Sprintf("value ≤ %d", lim), Match: func(cond ssa.Value) (int, int) {
 					op, x, y, okC := core.Cmp(cond)
 					if !okC {
 						return 0, 0
@@ -646,19 +653,158 @@ func C03(c *core.Ctx) {
 						return 0, 0
 					}
 					switch {
-					case op == token.GTR && k <= 255, op == token.GEQ && k <= 256:
+					case op == token.GTR && k <= lim, op == token.GEQ && k <= lim+1:
 						return -1, 1
-					case op == token.LEQ && k <= 255, op == token.LSS && k <= 256:
+					case op == token.LEQ && k <= lim, op == token.LSS && k <= lim+1:
 						return 1, -1
 					}
 					return 0, 0
 				}}
 				present := atomNonNil("source present", arg)
 				g := core.GateDeep(fn, []ssa.Instruction{in}, pos(small), neg(present))
-				c.Decide(g.OK && g.PerLit[0] > 0, "R3.7", "one-octet-element-bounded:"+core.FuncName(fn)+":"+describeValue(arg), c.Pos(in), "the narrowing to one octet is reachable only for an absent source or a value ≤ 255", core.FuncName(fn)+" narrows "+describeValue(arg)+" to a one-octet element without an upper bound: a value above 255 is silently encoded as another value (256 → 0, 300 → 44) and decodes as that")
+				rk := "one-octet-element-bounded:"
+				if lim != 255 {
+					rk = fmt.Sprintf("%d-octet-element-bounded:", widthOf[to.Kind()])
+				}
+				c.Decide(g.OK && g.PerLit[0] > 0, "R3.7", rk+core.FuncName(fn)+":"+describeValue(arg), c.Pos(in), fmt.Sprintf("the narrowing to %d octet(s) is reachable only for an absent source or a value ≤ %d", widthOf[to.Kind()], lim), fmt.Sprintf("%s narrows %s to a %d-octet element without an upper bound: a value above %d is silently encoded as another value (%d → 0) and decodes as that", core.FuncName(fn), describeValue(arg), widthOf[to.Kind()], lim, lim+1))
 			})
 		}
 		c.Floor("R3.7", "narrowings of an API value to one octet", nNarrow, 1)
+		// ---- R3.13 a duration of the packet API becomes a TLV time element only when it is
+		// absent or non-negative: the generated encoder writes uint64(d / time.Millisecond),
+		// so -5ms is encoded as 2^64-5 and decodes as about 292 million years
+		{
+			nDur := 0
+			isDurPtr := func(t types.Type) bool {
+				if pt, ok := t.Underlying().(*types.Pointer); ok {
+					t = pt.Elem()
+				}
+				n, ok := t.(*types.Named)
+				return ok && n.Obj().Pkg() != nil && n.Obj().Pkg().Path() == "time" && n.Obj().Name() == "Duration"
+			}
+			for _, fn := range p.FuncsIn(core.ModPath + "/std/ndn/spec_2022") {
+				if strings.HasSuffix(p.File(fn.Pos()), "_test.go") || strings.HasSuffix(p.File(fn.Pos()), "zz_generated.go") || fn.Parent() != nil {
+					continue
+				}
+				core.Instrs(fn, func(in ssa.Instruction) {
+					st, ok := in.(*ssa.Store)
+					if !ok {
+						return
+					}
+					fa, ok := st.Addr.(*ssa.FieldAddr)
+					if !ok || !isDurPtr(st.Val.Type()) {
+						return
+					}
+					// the value is a field of an API parameter (config.Lifetime, config.Freshness)
+					ld, ok := core.Strip(st.Val).(*ssa.UnOp)
+					if !ok || ld.Op != token.MUL {
+						return
+					}
+					src, ok := ld.X.(*ssa.FieldAddr)
+					if !ok {
+						return
+					}
+					if _, isPar := core.Strip(src.X).(*ssa.Parameter); !isPar {
+						return
+					}
+					nDur++
+					c.Funcs[core.FuncName(fn)] = true
+					_, fld := core.FieldAddrName(fa)
+					nonneg := &core.Atom{Name: "duration ≥ 0", Match: func(cond ssa.Value) (int, int) {
+						op, x, y, okC := core.Cmp(cond)
+						if !okC {
+							return 0, 0
+						}
+						k, isC := core.ConstInt(y)
+						if !isC {
+							return 0, 0
+						}
+						u, isU := core.StripConv(x).(*ssa.UnOp)
+						if !isU || u.Op != token.MUL || !(u.X == st.Val || core.Same(u.X, st.Val)) {
+							return 0, 0
+						}
+						switch {
+						case op == token.LSS && k <= 0, op == token.LEQ && k < 0:
+							return -1, 1
+						case op == token.GEQ && k >= 0, op == token.GTR && k >= -1:
+							return 1, -1
+						}
+						return 0, 0
+					}}
+					present := atomNonNil("source present", st.Val)
+					g := core.GateDeep(fn, []ssa.Instruction{in}, pos(nonneg), neg(present))
+					c.Decide(g.OK && g.PerLit[0] > 0, "R3.13", "duration-element-non-negative:"+core.FuncName(fn)+":"+fld, c.Pos(in), "the duration reaches the time element only when absent or ≥ 0", core.FuncName(fn)+" hands "+describeValue(st.Val)+" to the time element "+fld+" without a sign test: the encoder writes uint64(d/time.Millisecond), so a negative duration is encoded as a number near 2^64 and decodes as hundreds of millions of years instead of the value given")
+				})
+			}
+			c.Floor("R3.13", "API durations stored into TLV time elements", nDur, 2)
+		}
+		// ---- R3.14 writer and reader agree on "a parameters-digest component needs
+		// parameters": checkInterest refuses such an Interest (C12 R12.7) and the Interest
+		// encoder cuts a trailing digest component off the name, so MakeInterest must not
+		// return bytes for a name that carries one when it was given no parameters
+		if mi := c.Fn("R3.14", "std/ndn/spec_2022", "Spec", "MakeInterest"); mi != nil {
+			digT, okT := lookupConst(p, "std/encoding", "TypeParametersSha256DigestComponent")
+			var appPar *ssa.Parameter
+			for _, pr := range mi.Params {
+				if pr.Name() == "appParam" || (pr.Type().String() == core.ModPath+"/std/encoding.Wire" && appPar == nil) {
+					appPar = pr
+				}
+			}
+			if !okT || appPar == nil {
+				c.Und("R3.14", "anchor:MakeInterest-parameters", p.Pos(mi.Pos()), "the application-parameters argument or the digest type constant was not found")
+			} else {
+				var okRets []*ssa.Return
+				for _, f2 := range core.Reach(mi) {
+					if f2 != mi {
+						continue
+					}
+					core.Instrs(f2, func(in ssa.Instruction) {
+						if r, ok := in.(*ssa.Return); ok && len(r.Results) == 2 && core.IsNilConst(r.Results[1]) {
+							okRets = append(okRets, r)
+						}
+					})
+				}
+				hasPar := atomNonNil("appParam present", appPar)
+				isDig := &core.Atom{Name: "component is a parameters digest", Match: func(cond ssa.Value) (int, int) {
+					op, x, y, ok := core.Cmp(cond)
+					if !ok || (op != token.EQL && op != token.NEQ) {
+						return 0, 0
+					}
+					if _, isC := core.ConstInt(x); isC {
+						x, y = y, x
+					}
+					k, isC := core.ConstInt(y)
+					if !isC || k != digT {
+						return 0, 0
+					}
+					if _, isTyp := core.FieldOf(core.StripConv(x), "Typ"); !isTyp {
+						return 0, 0
+					}
+					return core.Iff(op == token.EQL)
+				}}
+				nTests, bad := 0, ""
+				for _, nf := range core.EdgeFactsDeep(mi, hasPar) {
+					if nf.Holds {
+						continue // only the side on which no parameters were given
+					}
+					for _, df := range core.EdgeFactsDeep(mi, isDig) {
+						if !df.Holds || df.E.From.Parent() != nf.E.To.Parent() {
+							continue
+						}
+						if !(nf.E.To == df.E.From || nf.E.To.Dominates(df.E.From)) {
+							continue
+						}
+						nTests++
+						for _, r := range okRets {
+							if r.Parent() == df.E.To.Parent() && core.ReachInstrFrom(core.Point{Block: df.E.To, Idx: 0}, r, nil, nil) != nil {
+								bad = c.Pos(r)
+							}
+						}
+					}
+				}
+				c.Decide(nTests > 0 && bad == "" && len(okRets) > 0, "R3.14", "digest-component-needs-parameters:MakeInterest", p.Pos(mi.Pos()), "without parameters, a ParametersSha256Digest component in the name leads to a refusal", "MakeInterest returns bytes for a name that carries a ParametersSha256Digest component although it was given no ApplicationParameters: the reader refuses an Interest with the component and no parameters, and the encoder cuts a trailing one off — the bytes are undecodable or name another Interest")
+			}
+		}
 		if mi := c.Fn("R3.8", "std/ndn/spec_2022", "Spec", "MakeInterest"); mi != nil {
 			nSt := 0
 			core.Instrs(mi, func(in ssa.Instruction) {
